@@ -3,7 +3,7 @@
    configuration, every behaviour of the modelled third-party code (RSA, serde), every
    adapter result and latency, every inbox of client frames and every timing. *)
 From Passage Require Import Lib.Bytes Codec.Desc Gen.PacketsGen Conn.Types Conn.Prog Conn.Sem1
-  Conn.Monitor Conn.MonitorProofs Conn.Order Conn.OrderProofs Conn.Checks Conn.Walk_C01.
+  Conn.Monitor Conn.MonitorProofs Conn.Order Conn.OrderProofs Conn.Checks Conn.Walk_C01 Conn.HistoryProofs Conn.C01Corollaries.
 
 Theorem C01_walk : forall o cfg, safe (step_with (chk_c01 o cfg)) m_init (listen o cfg).
 Proof. exact listen_c01_safe. Qed.
@@ -20,6 +20,39 @@ Theorem C01_every_event_checked : forall o cfg e ib pre ev post,
     (internal_at (q st) ev = true \/ exists q', delta (q st) ev = Some q' /\ (chk_c01 o cfg) st ev = true).
 Proof. intros o cfg e ib pre ev post H. eapply accepted_event_checked; [apply c01_accepts | exact H]. Qed.
 
+(* In plain terms.  Login Success is only ever sent after, on this connection, encryption was
+   switched on with the secret that came encrypted to the server key together with the verify
+   token issued here, and after either the authentication service returned a profile (client
+   told to authenticate) or a cookie was accepted (client not told to); the identity in the
+   packet is that profile's / that cookie's. *)
+Theorem C01_login_success_guarded : forall o cfg e ib pre u n x post,
+  untime (run1 o cfg e ib) = pre ++ TSend login_cb_LoginSuccessPacket [VZ u; VB n; x] :: post ->
+  exists st st1 ss,
+    run (step_with (chk_c01 o cfg)) m_init pre = Some st
+    /\ user_is o cfg (h st) n u = true
+    /\ reach (chk_c01 o cfg) st1
+    /\ token_verified o (h st1) = Some ss
+    /\ (exists newer, h st = newer ++ TEnc ss :: h st1)
+    /\ match sent_flag (h st1) with
+       | Some true => exists pn pu pp, res_of_auth (h st1) = Some (RProfile pn pu pp)
+       | Some false => exists c, cookie_accepted o cfg (h st1) = Some c
+       | None => False
+       end.
+Proof. exact login_success_guarded. Qed.
+
+(* The authentication service is only ever asked with the shared secret of this connection,
+   the server's public key, the effective client address and the name the client claimed. *)
+Theorem C01_auth_call_guarded : forall o cfg e ib pre cl host port proto n u secret pk post,
+  untime (run1 o cfg e ib) = pre ++ TCall (CAuth cl host port proto n u secret pk) :: post ->
+  exists st ss cn cu,
+    run (step_with (chk_c01 o cfg)) m_init pre = Some st
+    /\ token_verified o (h st) = Some ss /\ secret = ss
+    /\ pk = cf_pubkey cfg /\ sa_eqb cl (cf_client cfg) = true
+    /\ claimed (h st) = Some (cn, cu) /\ n = cn /\ u = cu.
+Proof. exact auth_call_guarded. Qed.
+
 Print Assumptions C01_walk.
+Print Assumptions C01_login_success_guarded.
+Print Assumptions C01_auth_call_guarded.
 Print Assumptions C01_accepts.
 Print Assumptions C01_every_event_checked.
